@@ -85,10 +85,22 @@ def check_coloring(ctx, name, n, adj, col, case):
 
 
 def check_bf(ctx, name, n, A, centers, d, m, p, case):
-    W = A.toarray().astype(float)
-    W[W == 0] = np.inf
+    # every STORED entry is an edge (a stored zero is an edge of length zero); reference distances by plain relaxation
     G = sp.csr_array(A)
-    dist = csg.dijkstra(G, directed=True, indices=list(centers)) if n else np.zeros((len(centers), 0))
+    W = np.full((n, n), np.inf)
+    for i_ in range(n):
+        for k_ in range(G.indptr[i_], G.indptr[i_ + 1]):
+            W[i_, G.indices[k_]] = min(W[i_, G.indices[k_]], float(G.data[k_]))
+    dist = np.full((len(centers), n), np.inf)
+    for ci_, c_ in enumerate(centers):
+        dist[ci_, c_] = 0.0
+        for _ in range(n):
+            for i_ in range(n):
+                if np.isfinite(dist[ci_, i_]):
+                    for k_ in range(G.indptr[i_], G.indptr[i_ + 1]):
+                        j_ = G.indices[k_]
+                        if dist[ci_, i_] + G.data[k_] < dist[ci_, j_]:
+                            dist[ci_, j_] = dist[ci_, i_] + G.data[k_]
     best = dist.min(axis=0)
     for i in range(n):
         if not (d[i] == best[i] or (np.isinf(d[i]) and np.isinf(best[i]))):
@@ -190,8 +202,8 @@ def run(ctx):
         same = all((comp[i] == comp[j]) == (lab[i] == lab[j]) for i in range(n) for j in range(n))
         if c != nc or not same or sorted(set(comp.tolist())) != list(range(nc)):
             ctx.fail('connected_components', 'labels %s (scipy %s)' % (comp.tolist(), lab.tolist()), dict(base))
-        # 7 Bellman-Ford with integer weights
-        w = [rng.choice([1, 2, 3]) for _ in edges]
+        # 7 Bellman-Ford with integer weights (zero-length edges included: they are edges)
+        w = [rng.choice([1, 2, 3, 0]) for _ in edges]
         Aw = gen.graph_csr(n, edges, diag=False, weights=w)
         Wp, Wj, Wx = Aw.indptr.astype(I32), Aw.indices.astype(I32), Aw.data.copy()
         for centers in ([rng.randrange(n)], sorted(rng.sample(range(n), min(2, n)))):
@@ -306,6 +318,12 @@ def public(ctx):
         centers = sorted(rng.sample(range(n), rng.choice([1, 2, 3])))
         d, m, p = pg.bellman_ford(Aw, centers)
         check_bf(ctx, 'bellman_ford', n, Aw, centers, d, m, p, dict(base, centers=centers, weights=w))
+        # the same graph with all lengths in other units (tiny and huge exact powers of two): distances scale, nearest
+        # centres and predecessors stay what a shortest-path computation gives
+        for sc in (2.0 ** -50, 2.0 ** 40):
+            Aws = sp.csr_array(Aw * sc)
+            ds, ms, ps_ = pg.bellman_ford(Aws, centers)
+            check_bf(ctx, 'bellman_ford/scaled', n, Aws, centers, ds, ms, ps_, dict(base, centers=centers, weights=w, scale=sc))
         # reverse Cuthill-McKee: a symmetric permutation of the input
         Acsr = sp.csr_array(A)
         try:
